@@ -29,6 +29,12 @@ func (k *kitSide) reg(r *kring.Ring[int], n int) {
 		p = p.Next()
 	}
 }
+// regOne registers a single node without calling any method on it (zero-value / literal elements
+// must stay uninitialised until the sequence's own first call).
+func (k *kitSide) regOne(r *kring.Ring[int]) {
+	k.id[r] = len(k.nodes)
+	k.nodes = append(k.nodes, r)
+}
 func (k *kitSide) show(r *kring.Ring[int]) string {
 	if r == nil {
 		return "nil"
@@ -52,6 +58,10 @@ func (k *stdSide) reg(r *stdring.Ring, n int) {
 		p.Value = 0
 		p = p.Next()
 	}
+}
+func (k *stdSide) regOne(r *stdring.Ring) {
+	k.id[r] = len(k.nodes)
+	k.nodes = append(k.nodes, r)
 }
 func (k *stdSide) show(r *stdring.Ring) string {
 	if r == nil {
@@ -78,7 +88,7 @@ func atoi(s string) int { n, _ := strconv.Atoi(s); return n }
 
 // execRing runs the case on dapr/kit's ring and on container/ring; returns per-op answers of both.
 func execRing(rc ringCase) (kit, std []string, outcome string) {
-	outcome = guarded(10*time.Second, func() {
+	outcome = guarded(2*time.Second, func() {
 		K := &kitSide{id: map[*kring.Ring[int]]int{}}
 		S := &stdSide{id: map[*stdring.Ring]int{}}
 		kp := func(s string) *kring.Ring[int] {
@@ -93,57 +103,111 @@ func execRing(rc ringCase) (kit, std []string, outcome string) {
 			}
 			return S.nodes[atoi(s)]
 		}
+		kDead, sDead := false, false
+		// each side's call runs under its own recover: a panic of one implementation is an answer
+		safe := func(f func() string) (out string) {
+			defer func() {
+				if r := recover(); r != nil {
+					out = "panic"
+				}
+			}()
+			return f()
+		}
 		for _, line := range rc.Ops {
 			op, a := kv(line)
-			var ka, sa string
+			var kf, sf func() string
 			switch op {
 			case "rnew":
 				n := atoi(a["n"])
-				kr, sr := kring.New[int](n), stdring.New(n)
-				if n > 0 {
-					K.reg(kr, n)
-					S.reg(sr, n)
+				kf = func() string {
+					kr := kring.New[int](n)
+					if n > 0 {
+						K.reg(kr, n)
+					}
+					return K.show(kr)
 				}
-				ka, sa = K.show(kr), S.show(sr)
+				sf = func() string {
+					sr := stdring.New(n)
+					if n > 0 {
+						S.reg(sr, n)
+					}
+					return S.show(sr)
+				}
 			case "rzero":
-				kr, sr := new(kring.Ring[int]), new(stdring.Ring)
-				K.reg(kr, 1)
-				S.reg(sr, 1)
-				ka, sa = K.show(kr), S.show(sr)
+				kf = func() string { kr := new(kring.Ring[int]); K.regOne(kr); return K.show(kr) }
+				sf = func() string { sr := new(stdring.Ring); sr.Value = 0; S.regOne(sr); return S.show(sr) }
+			case "rlit":
+				v := atoi(a["v"])
+				kf = func() string { kr := &kring.Ring[int]{Value: v}; K.regOne(kr); return K.show(kr) }
+				sf = func() string { sr := &stdring.Ring{Value: v}; S.regOne(sr); return S.show(sr) }
 			case "rnext":
-				ka, sa = K.show(kp(a["p"]).Next()), S.show(sp(a["p"]).Next())
+				kf = func() string { return K.show(kp(a["p"]).Next()) }
+				sf = func() string { return S.show(sp(a["p"]).Next()) }
 			case "rprev":
-				ka, sa = K.show(kp(a["p"]).Prev()), S.show(sp(a["p"]).Prev())
+				kf = func() string { return K.show(kp(a["p"]).Prev()) }
+				sf = func() string { return S.show(sp(a["p"]).Prev()) }
 			case "rmove":
-				ka, sa = K.show(kp(a["p"]).Move(atoi(a["n"]))), S.show(sp(a["p"]).Move(atoi(a["n"])))
+				kf = func() string { return K.show(kp(a["p"]).Move(atoi(a["n"]))) }
+				sf = func() string { return S.show(sp(a["p"]).Move(atoi(a["n"]))) }
 			case "rlink":
-				ka, sa = K.show(kp(a["p"]).Link(kp(a["s"]))), S.show(sp(a["p"]).Link(sp(a["s"])))
+				kf = func() string { return K.show(kp(a["p"]).Link(kp(a["s"]))) }
+				sf = func() string { return S.show(sp(a["p"]).Link(sp(a["s"]))) }
 			case "runlink":
-				ka, sa = K.show(kp(a["p"]).Unlink(atoi(a["n"]))), S.show(sp(a["p"]).Unlink(atoi(a["n"])))
+				kf = func() string { return K.show(kp(a["p"]).Unlink(atoi(a["n"]))) }
+				sf = func() string { return S.show(sp(a["p"]).Unlink(atoi(a["n"]))) }
 			case "rlen":
-				ka, sa = strconv.Itoa(kp(a["p"]).Len()), strconv.Itoa(sp(a["p"]).Len())
+				kf = func() string { return strconv.Itoa(kp(a["p"]).Len()) }
+				sf = func() string { return strconv.Itoa(sp(a["p"]).Len()) }
 			case "rdo":
-				var kx, sx []string
-				kp(a["p"]).Do(func(v int) { kx = append(kx, strconv.Itoa(v)) })
-				sp(a["p"]).Do(func(v any) { sx = append(sx, strconv.Itoa(v.(int))) })
-				ka, sa = strings.Join(kx, ","), strings.Join(sx, ",")
+				kf = func() string {
+					var kx []string
+					defer func() {
+						if r := recover(); r != nil {
+							panic(fmt.Sprintf("after visiting [%s]", strings.Join(kx, ",")))
+						}
+					}()
+					kp(a["p"]).Do(func(v int) { kx = append(kx, strconv.Itoa(v)) })
+					return strings.Join(kx, ",")
+				}
+				sf = func() string {
+					var sx []string
+					sp(a["p"]).Do(func(v any) { sx = append(sx, strconv.Itoa(v.(int))) })
+					return strings.Join(sx, ",")
+				}
 			case "rset":
-				kp(a["p"]).Value = atoi(a["v"])
-				sp(a["p"]).Value = atoi(a["v"])
-				ka, sa = "ok", "ok"
+				kf = func() string { kp(a["p"]).Value = atoi(a["v"]); return "ok" }
+				sf = func() string { sp(a["p"]).Value = atoi(a["v"]); return "ok" }
 			case "rget":
-				ka, sa = strconv.Itoa(kp(a["p"]).Value), strconv.Itoa(sp(a["p"]).Value.(int))
+				kf = func() string { return strconv.Itoa(kp(a["p"]).Value) }
+				sf = func() string { return strconv.Itoa(sp(a["p"]).Value.(int)) }
 			case "rdump":
-				var kx, sx []string
-				for _, n := range K.nodes {
-					kx = append(kx, fmt.Sprintf("%s,%s,%d", K.show(n.Next()), K.show(n.Prev()), n.Value))
+				kf = func() string {
+					var kx []string
+					for _, n := range K.nodes {
+						kx = append(kx, fmt.Sprintf("%s,%s,%d", K.show(n.Next()), K.show(n.Prev()), n.Value))
+					}
+					return strings.Join(kx, ";")
 				}
-				for _, n := range S.nodes {
-					sx = append(sx, fmt.Sprintf("%s,%s,%d", S.show(n.Next()), S.show(n.Prev()), n.Value.(int)))
+				sf = func() string {
+					var sx []string
+					for _, n := range S.nodes {
+						sx = append(sx, fmt.Sprintf("%s,%s,%d", S.show(n.Next()), S.show(n.Prev()), n.Value.(int)))
+					}
+					return strings.Join(sx, ";")
 				}
-				ka, sa = strings.Join(kx, ";"), strings.Join(sx, ";")
 			default:
-				ka, sa = "err=op", "err=op"
+				kf = func() string { return "err=op" }
+				sf = kf
+			}
+			// after a panic the structure may be half-written: the side that panicked stops executing
+			ka, sa := "skipped-after-panic", "skipped-after-panic"
+			if !kDead {
+				ka = safe(kf)
+				kDead = ka == "panic"
+			}
+			if !sDead {
+				sa = safe(sf)
+				sDead = sa == "panic"
 			}
 			kit = append(kit, ka)
 			std = append(std, sa)
@@ -152,8 +216,66 @@ func execRing(rc ringCase) (kit, std []string, outcome string) {
 	return
 }
 
+// ringBad says whether the monitor (container/ring) rejects the case, and with which id.
+func ringBad(rc ringCase) string {
+	kit, std, outcome := execRing(rc)
+	if outcome != "ok" {
+		return "ring-" + strings.Fields(outcome)[0]
+	}
+	for i := range kit {
+		if i < len(std) && kit[i] != std[i] {
+			if kit[i] == "panic" {
+				return "ring-panic"
+			}
+			return "ring-differs-from-container-ring"
+		}
+	}
+	return ""
+}
+
+// shrinkRing drops operations while the same finding persists. Node ids are allocation order, so an
+// operation is only dropped if every later operation still refers to allocated nodes.
+func (c *ctx) shrinkRing(rc ringCase, id string) ringCase {
+	valid := func(ops []string) bool {
+		nodes := 0
+		for _, l := range ops {
+			op, a := kv(l)
+			for _, key := range []string{"p", "s"} {
+				if v, ok := a[key]; ok && v != "nil" && atoi(v) >= nodes {
+					return false
+				}
+			}
+			switch op {
+			case "rnew":
+				if n := atoi(a["n"]); n > 0 {
+					nodes += n
+				}
+			case "rzero", "rlit":
+				nodes++
+			}
+		}
+		return true
+	}
+	for changed := true; changed; {
+		changed = false
+		for i := 0; i < len(rc.Ops); i++ {
+			t := ringCase{Kind: rc.Kind}
+			t.Ops = append(append([]string{}, rc.Ops[:i]...), rc.Ops[i+1:]...)
+			if valid(t.Ops) && ringBad(t) == id {
+				rc = t
+				changed = true
+				i--
+			}
+		}
+	}
+	return rc
+}
+
 func (c *ctx) runRing(rc ringCase) {
 	rc.Kind = "ring"
+	if c.ringHung {
+		return // an earlier case never returned: its goroutine still spins; do not pile up more
+	}
 	kit, std, outcome := execRing(rc)
 	nodes, links := 0, 0
 	for _, l := range rc.Ops {
@@ -165,22 +287,47 @@ func (c *ctx) runRing(rc ringCase) {
 				nodes += n
 			}
 			c.res.Hit("ring.new_size=" + a["n"])
-		case "rzero":
+		case "rzero", "rlit":
 			nodes++
 		case "rlink", "runlink":
 			links++
 		}
 	}
-	c.res.Count("r/"+strings.Join(rc.Ops, ";"), links > 0 && nodes >= 2)
+	zeroNodes := 0
+	for _, l := range rc.Ops {
+		if op, _ := kv(l); op == "rzero" || op == "rlit" {
+			zeroNodes++
+		}
+	}
+	if zeroNodes > 0 {
+		c.res.Hit("ring.case_with_zero_value_nodes")
+	}
+	c.res.Count("r/"+strings.Join(rc.Ops, ";"), (links > 0 && nodes >= 2) || zeroNodes > 0)
 	c.res.Hit(fmt.Sprintf("ring.len_bucket=%d", (len(rc.Ops)+9)/10*10))
 	if outcome != "ok" {
-		c.res.Violate("ring-"+strings.Fields(outcome)[0], "ring op sequence: "+outcome, rc)
+		if outcome == "timeout" {
+			c.ringHung = true
+			c.res.Note("a ring case did not return within 2s; remaining ring cases skipped")
+		}
+		c.res.Violate("ring-"+strings.Fields(outcome)[0], "ring op sequence: "+outcome+" (an operation of the real ring or of container/ring never returned)", rc)
 		return
 	}
 	for i := range rc.Ops {
 		if kit[i] != std[i] {
-			c.res.Violate("ring-differs-from-container-ring",
-				fmt.Sprintf("op %d %q: dapr/kit ring answers %s, container/ring answers %s", i, rc.Ops[i], kit[i], std[i]), rc)
+			id := "ring-differs-from-container-ring"
+			if kit[i] == "panic" {
+				id = "ring-panic"
+			}
+			s := c.shrinkRing(rc, id)
+			sk, ss, _ := execRing(s)
+			what := fmt.Sprintf("op %d %q: dapr/kit ring answers %s, container/ring answers %s", i, rc.Ops[i], kit[i], std[i])
+			for j := range s.Ops {
+				if j < len(sk) && j < len(ss) && sk[j] != ss[j] {
+					what = fmt.Sprintf("op %d %q: dapr/kit ring answers %s, container/ring answers %s", j, s.Ops[j], sk[j], ss[j])
+					break
+				}
+			}
+			c.res.Violate(id, what, s)
 			return
 		}
 	}
@@ -215,9 +362,17 @@ func (c *ctx) ringRandom(n int) {
 			}
 			return pick()
 		}
+		zeroHeavy := r.Intn(3) == 0 // elements created as zero values / literals, never through New
 		for i := 0; i < l; i++ {
 			x := r.Intn(100)
 			switch {
+			case zeroHeavy && (nodes == 0 || (x < 22 && nodes < 40)):
+				if r.Bool() {
+					rc.Ops = append(rc.Ops, "rzero")
+				} else {
+					rc.Ops = append(rc.Ops, fmt.Sprintf("rlit v=%d", r.Range(1, 99)))
+				}
+				nodes++
 			case nodes == 0 || (x < 12 && nodes < 40):
 				sz := r.Range(-1, 5)
 				rc.Ops = append(rc.Ops, fmt.Sprintf("rnew n=%d", sz))
@@ -253,4 +408,51 @@ func (c *ctx) ringRandom(n int) {
 		}
 		c.runRing(rc)
 	}
+}
+
+// ringZeroValue: container/ring's contract "the zero value for a Ring is a one-element ring with a
+// nil Value".  Every method is made the FIRST call on an element that was created as a zero value
+// (`new(Ring)`) or a literal (`&Ring{Value: v}`), as receiver and as argument, followed by every
+// method as second call and a dump.
+func (c *ctx) ringZeroValue() {
+	creates := [][]string{{"rzero"}, {"rlit v=7"}}
+	// first calls on node 0; node 1 (when present) is another fresh element, nodes 2.. a New ring
+	firsts := []struct {
+		pre  []string // created after node 0
+		call string
+	}{
+		{nil, "rdo p=0"}, {nil, "rlen p=0"}, {nil, "rnext p=0"}, {nil, "rprev p=0"}, {nil, "rget p=0"}, {nil, "rset p=0 v=5"},
+		{nil, "rmove p=0 n=0"}, {nil, "rmove p=0 n=1"}, {nil, "rmove p=0 n=-1"}, {nil, "rmove p=0 n=3"}, {nil, "rmove p=0 n=-4"},
+		{nil, "rlink p=0 s=0"}, {nil, "rlink p=0 s=nil"},
+		{[]string{"rzero"}, "rlink p=0 s=1"}, {[]string{"rlit v=9"}, "rlink p=0 s=1"}, {[]string{"rlit v=9"}, "rlink p=1 s=0"},
+		{[]string{"rnew n=1"}, "rlink p=0 s=1"}, {[]string{"rnew n=3"}, "rlink p=0 s=2"}, {[]string{"rnew n=3"}, "rlink p=1 s=0"}, {[]string{"rnew n=2"}, "rlink p=2 s=0"},
+		{nil, "runlink p=0 n=-1"}, {nil, "runlink p=0 n=0"}, {nil, "runlink p=0 n=1"}, {nil, "runlink p=0 n=2"}, {nil, "runlink p=0 n=5"},
+	}
+	seconds := []string{"rdo p=0", "rlen p=0", "rnext p=0", "rprev p=0", "rmove p=0 n=2", "rmove p=0 n=-3", "rlink p=0 s=0", "runlink p=0 n=1", "rget p=0"}
+	n := 0
+	for _, cr := range creates {
+		for _, f := range firsts {
+			for si := -1; si < len(seconds); si++ {
+				rc := ringCase{}
+				rc.Ops = append(rc.Ops, cr...)
+				rc.Ops = append(rc.Ops, f.pre...)
+				rc.Ops = append(rc.Ops, f.call)
+				if si >= 0 {
+					rc.Ops = append(rc.Ops, seconds[si])
+				}
+				// the other element's first call, too
+				if len(f.pre) > 0 {
+					rc.Ops = append(rc.Ops, "rdo p=1", "rlen p=1")
+				}
+				rc.Ops = append(rc.Ops, "rdo p=0", "rlen p=0", "rdump")
+				c.res.Hit("ring.zero_value_first_call=" + strings.Fields(f.call)[0])
+				if n%97 == 5 {
+					c.res.Sample(rc)
+				}
+				n++
+				c.runRing(rc)
+			}
+		}
+	}
+	c.res.Note(fmt.Sprintf("ring: %d zero-value/literal first-call sequences enumerated (every method as first call, as receiver and as Link argument)", n))
 }
